@@ -104,6 +104,14 @@ class Check:
                                   "with the design it claims (not a property of the code)" % (module, cfg, r["violated"]))
         return r
 
+    def apalache(self, module, init, inv, length, label):
+        """Unbounded-integer inductive check with Apalache (symbolic); a failure to establish it is a machinery failure."""
+        ok, out, wall = tlc.apalache_check(module, init, inv, length)
+        self.cov.setdefault("apalache", []).append({"module": module, "init": init, "inv": inv, "length": length, "ok": ok,
+                                                      "wall_s": round(wall, 1), "what": label})
+        if not ok:
+            self.machinery.append("apalache could not establish %s (%s): %s" % (label, module, out[-600:]))
+
     def mc_dump(self, cfg, module, timeout=3000):
         """MC of a kernel spec; returns the parsed reachable states (cases / edges) or None."""
         try:
